@@ -36,8 +36,411 @@ def agree1 (a : Except Err Nat × Sc) (b : Except Err (Nat × Rd) × Rd) : Prop 
   | .error e, .error e' => e = e' ∧ a.2.abs.data = b.2.data
   | _, _ => False
 
+/-! ### Helper lemmas -/
+
+theorem mzr_ge_cur : ∀ (cs : List Nat) (cur : Nat), cur ≤ maxZeroRun cs cur := by
+  intro cs
+  induction cs with
+  | nil => intro cur; simp [maxZeroRun]
+  | cons c cs ih =>
+    intro cur
+    unfold maxZeroRun
+    split <;> omega
+
+theorem mzr_mono : ∀ (cs : List Nat) (a b : Nat), a ≤ b → maxZeroRun cs a ≤ maxZeroRun cs b := by
+  intro cs
+  induction cs with
+  | nil => intro a b h; simpa [maxZeroRun] using h
+  | cons c cs ih =>
+    intro a b h
+    unfold maxZeroRun
+    split
+    · have := ih (a + 1) (b + 1) (by omega); omega
+    · omega
+
+theorem mzr_zero_le (cs : List Nat) (cur : Nat) : maxZeroRun cs 0 ≤ maxZeroRun cs cur :=
+  mzr_mono cs 0 cur (Nat.zero_le _)
+
+theorem mzr_tail (c : Nat) (cs : List Nat) (cur : Nat) : maxZeroRun cs 0 ≤ maxZeroRun (c :: cs) cur := by
+  conv => rhs; unfold maxZeroRun
+  split
+  · have := mzr_mono cs 0 (cur + 1) (by omega); omega
+  · omega
+
+theorem mzr_partial (c d : Nat) (hd : d ≠ 0) (hc : c ≠ 0) (cs : List Nat) (cur : Nat) :
+    maxZeroRun (d :: cs) 0 ≤ maxZeroRun (c :: cs) cur := by
+  unfold maxZeroRun
+  simp [hd, hc]
+  omega
+
+/-- one step of the underlying reader, `want > 0` -/
+theorem src_read_spec (s : Src) (w : Nat) (hw : 0 < w) :
+    (s.data = [] ∧ s.read w = ([], true, s)) ∨
+    (s.data ≠ [] ∧ ∃ cs, s.chunks = 0 :: cs ∧ s.read w = ([], false, { s with chunks := cs })) ∨
+    (s.data ≠ [] ∧ ∃ n s', 0 < n ∧ n ≤ w ∧ n ≤ s.data.length ∧
+        s.read w = (s.data.take n, s.eofWithData && n == s.data.length, s') ∧
+        s'.data = s.data.drop n ∧ s'.chunks.length ≤ s.chunks.length ∧
+        (∀ cur, maxZeroRun s'.chunks 0 ≤ maxZeroRun s.chunks cur)) := by
+  obtain ⟨data, chunks, e⟩ := s
+  cases data with
+  | nil => left; simp [Src.read]
+  | cons b rest =>
+    right
+    cases chunks with
+    | nil =>
+      right
+      refine ⟨by simp, min w (rest.length + 1), ⟨(b :: rest).drop (min w (rest.length + 1)), [], e⟩, ?_, ?_, ?_, ?_, rfl, ?_, ?_⟩
+      · omega
+      · omega
+      · simp; omega
+      · simp [Src.read]
+      · simp
+      · intro cur; simp [maxZeroRun]
+    | cons c cs =>
+      by_cases hc : c = 0
+      · left
+        subst hc
+        exact ⟨by simp, cs, rfl, by simp [Src.read]⟩
+      · right
+        refine ⟨by simp, min (min c w) (rest.length + 1), ⟨(b :: rest).drop (min (min c w) (rest.length + 1)), (if min (min c w) (rest.length + 1) < c then (c - min (min c w) (rest.length + 1)) :: cs else cs), e⟩, ?_, ?_, ?_, ?_, rfl, ?_, ?_⟩
+        · omega
+        · omega
+        · simp; omega
+        · simp [Src.read, hc]
+        · simp; split <;> simp
+        · intro cur
+          simp only
+          split
+          · apply mzr_partial <;> omega
+          · exact mzr_tail c cs cur
+
+theorem getLastD_irrel {α} (l : List α) (a b : α) (h : l ≠ []) : l.getLastD a = l.getLastD b := by
+  cases l with
+  | nil => exact absurd rfl h
+  | cons x xs => rw [List.getLastD_cons, List.getLastD_cons]
+
+/-- one `Read` of the scanner, `want > 0`, against the abstract data `D = z.abs.data` -/
+theorem sc_read_spec (z : Sc) (w : Nat) (hw : 0 < w) :
+    ∃ k eof z', z.read w = (z.abs.data.take k, eof, z') ∧ k ≤ w ∧ k ≤ z.abs.data.length ∧
+      z'.ls ≠ 1 ∧ z'.src.data = z.abs.data.drop k ∧
+      (∀ cur, maxZeroRun z'.src.chunks 0 ≤ maxZeroRun z.src.chunks cur) ∧
+      (z.ls ≤ 2 → z'.ls ≤ 2) ∧
+      (eof = true → k < w ∧ z.abs.data.length = k) ∧
+      (eof = false → k < w → z'.src.chunks.length + (w - k) < z.src.chunks.length + w) ∧
+      (0 < k → z'.ls = 2 ∧ z'.l = (z.abs.data.take k).getLastD 0) ∧
+      (k = 0 → z.ls ≠ 1 ∧ (eof = false → z.src.chunks = 0 :: z'.src.chunks) ∧ (eof = true → z' = z)) := by
+  obtain ⟨src, l, ls⟩ := z
+  by_cases hls : ls = 1
+  · subst hls
+    by_cases hw1 : w = 1
+    · subst hw1
+      refine ⟨1, false, ⟨src, l, 2⟩, ?_, ?_⟩
+      · simp [Sc.read, Sc.abs]
+      · simp [Sc.abs, mzr_zero_le]
+    · rcases src_read_spec src (w - 1) (by omega) with ⟨hd, hr⟩ | ⟨hd, cs, hc, hr⟩ | ⟨hd, n, s', hn0, hnw, hnl, hr, hsd, hsc, hsm⟩
+      · refine ⟨1, true, ⟨src, l, 2⟩, ?_, ?_⟩
+        · simp [Sc.read, Sc.abs, hw1, hr]
+        · simp [Sc.abs, hd, mzr_zero_le]; omega
+      · refine ⟨1, false, ⟨{ src with chunks := cs }, l, 2⟩, ?_, ?_⟩
+        · simp [Sc.read, Sc.abs, hw1, hr]
+        · simp [Sc.abs, hc, mzr_tail]; omega
+      · have hne : List.take n src.data ≠ [] := by
+          intro h
+          have := congrArg List.length h
+          have hl : 0 < src.data.length := List.length_pos_iff.mpr hd
+          rw [List.length_take, List.length_nil] at this; omega
+        have hmin : min n src.data.length = n := Nat.min_eq_left hnl
+        have hE : (src.eofWithData && n == src.data.length) = true → n = src.data.length := by
+          simp
+        generalize (src.eofWithData && n == src.data.length) = E at hr hE
+        refine ⟨n + 1, (if E && (n == w - 1) then false else E), ⟨s', (src.data.take n).getLastD 0, 2⟩, ?_, ?_, ?_, ?_, ?_, ?_, ?_, ?_, ?_, ?_, ?_⟩
+        · simp [Sc.read, Sc.abs, hw1, hr, hne, hmin]
+        · omega
+        · simp [Sc.abs]; omega
+        · simp
+        · simp [Sc.abs, hsd]
+        · exact hsm
+        · simp
+        · intro h
+          have hE1 : E = true := by
+            split at h
+            · cases h
+            · exact h
+          have := hE hE1
+          simp [hE1] at h
+          simp [Sc.abs]; omega
+        · intro _ _
+          show s'.chunks.length + _ < src.chunks.length + _
+          omega
+        · intro _
+          refine ⟨rfl, ?_⟩
+          show (src.data.take n).getLastD 0 = (List.take (n + 1) (l :: src.data)).getLastD 0
+          rw [List.take_succ_cons, List.getLastD_cons]
+          exact getLastD_irrel _ _ _ hne
+        · intro h; omega
+  · rcases src_read_spec src w hw with ⟨hd, hr⟩ | ⟨hd, cs, hc, hr⟩ | ⟨hd, n, s', hn0, hnw, hnl, hr, hsd, hsc, hsm⟩
+    · refine ⟨0, true, ⟨src, l, ls⟩, ?_, ?_⟩
+      · simp [Sc.read, Sc.abs, hls, hr]
+      · simp [Sc.abs, hd, hls, mzr_zero_le]; omega
+    · refine ⟨0, false, ⟨{ src with chunks := cs }, l, ls⟩, ?_, ?_⟩
+      · simp [Sc.read, Sc.abs, hls, hr]
+      · simp [Sc.abs, hc, hls, mzr_tail]
+    · have hne : List.take n src.data ≠ [] := by
+        intro h
+        have := congrArg List.length h
+        have hl : 0 < src.data.length := List.length_pos_iff.mpr hd
+        rw [List.length_take, List.length_nil] at this; omega
+      have hmin : min n src.data.length = n := Nat.min_eq_left hnl
+      have hE : (src.eofWithData && n == src.data.length) = true → n = src.data.length := by
+        simp
+      generalize (src.eofWithData && n == src.data.length) = E at hr hE
+      refine ⟨n, (if E && (n == w) then false else E), ⟨s', (src.data.take n).getLastD 0, 2⟩, ?_, ?_, ?_, ?_, ?_, ?_, ?_, ?_, ?_, ?_, ?_⟩
+      · simp [Sc.read, Sc.abs, hls, hr, hne, hmin]
+      · omega
+      · simp [Sc.abs, hls]; omega
+      · simp
+      · simp [Sc.abs, hsd, hls]
+      · exact hsm
+      · simp
+      · intro h
+        have hE1 : E = true := by
+          split at h
+          · cases h
+          · exact h
+        have := hE hE1
+        simp [hE1] at h
+        simp [Sc.abs, hls]; omega
+      · intro _ _
+        show s'.chunks.length + _ < src.chunks.length + _
+        omega
+      · intro _
+        refine ⟨rfl, ?_⟩
+        simp [Sc.abs, hls]
+      · intro h; omega
+
+theorem abs_of_ne (z : Sc) (h : z.ls ≠ 1) : z.abs = ⟨z.src.data, none, 0⟩ := by
+  simp [Sc.abs, h]
+
+theorem readByte_spec : ∀ (fuel : Nat) (z : Sc) (cur : Nat),
+    maxZeroRun z.src.chunks cur < fuel + cur →
+    ∃ z', z'.ls ≠ 1 ∧ (z.ls ≤ 2 → z'.ls ≤ 2) ∧ maxZeroRun z'.src.chunks 0 ≤ maxZeroRun z.src.chunks cur ∧
+      z'.src.data = z.abs.data.drop 1 ∧
+      match z.abs.data with
+      | [] => z.readByte fuel = (.error .eof, z')
+      | b :: _ => z.readByte fuel = (.ok b, z') ∧ z'.ls = 2 ∧ z'.l = b := by
+  intro fuel
+  induction fuel with
+  | zero =>
+    intro z cur h
+    have := mzr_ge_cur z.src.chunks cur
+    omega
+  | succ fuel ih =>
+    intro z cur h
+    obtain ⟨k, eof, z', hread, hk1, hkD, hls', hdata, hmzr, hls2, heofT, heofF, hpos, hzero⟩ := sc_read_spec z 1 (by omega)
+    cases hD : z.abs.data with
+    | nil =>
+      rw [hD] at hread hkD hdata
+      have hk0 : k = 0 := by simpa using hkD
+      subst hk0
+      obtain ⟨hzls, hF, hT⟩ := hzero rfl
+      cases eof with
+      | true =>
+        refine ⟨z', hls', hls2, hmzr cur, by simpa using hdata, ?_⟩
+        simp [Sc.readByte, hread]
+      | false =>
+        have hc := hF rfl
+        have habs : z'.abs.data = [] := by rw [abs_of_ne z' hls']; simpa using hdata
+        have hm : maxZeroRun z'.src.chunks (cur + 1) < fuel + (cur + 1) := by
+          rw [hc] at h; unfold maxZeroRun at h; simp at h; omega
+        obtain ⟨z'', h1, h2, h3, h4, h5⟩ := ih z' (cur + 1) hm
+        rw [habs] at h4 h5
+        refine ⟨z'', h1, fun hh => h2 (hls2 hh), ?_, by simpa using h4, ?_⟩
+        · rw [hc]; conv => rhs; unfold maxZeroRun
+          simp; omega
+        · simp only [Sc.readByte, hread, List.take_nil]
+          simpa using h5
+    | cons b rest =>
+      rw [hD] at hread hkD hdata
+      by_cases hk0 : k = 0
+      · subst hk0
+        obtain ⟨hzls, hF, hT⟩ := hzero rfl
+        cases eof with
+        | true => have := (heofT rfl).2; rw [hD] at this; simp at this
+        | false =>
+          have hc := hF rfl
+          have habs : z'.abs.data = b :: rest := by rw [abs_of_ne z' hls']; simpa using hdata
+          have hm : maxZeroRun z'.src.chunks (cur + 1) < fuel + (cur + 1) := by
+            rw [hc] at h; unfold maxZeroRun at h; simp at h; omega
+          obtain ⟨z'', h1, h2, h3, h4, h5⟩ := ih z' (cur + 1) hm
+          rw [habs] at h4 h5
+          refine ⟨z'', h1, fun hh => h2 (hls2 hh), ?_, by simpa using h4, ?_⟩
+          · rw [hc]; conv => rhs; unfold maxZeroRun
+            simp; omega
+          · simp only [Sc.readByte, hread, List.take_zero]
+            simpa using h5
+      · have hk : k = 1 := by omega
+        subst hk
+        obtain ⟨hl2, hl⟩ := hpos (by omega)
+        rw [hD] at hl
+        refine ⟨z', hls', hls2, hmzr cur, by simpa using hdata, ?_⟩
+        simp [Sc.readByte, hread, hl2]
+        simpa using hl
+
+theorem readAtLeast_spec : ∀ (fuel : Nat) (z : Sc) (want : Nat) (acc : Bytes) (cur : Nat),
+    0 < want → z.src.chunks.length + want < fuel →
+    ∃ z', z'.ls ≠ 1 ∧ (z.ls ≤ 2 → z'.ls ≤ 2) ∧ maxZeroRun z'.src.chunks 0 ≤ maxZeroRun z.src.chunks cur ∧
+      if want ≤ z.abs.data.length then
+        z.readAtLeast fuel want acc = (.ok (acc ++ z.abs.data.take want), z') ∧ z'.src.data = z.abs.data.drop want
+      else
+        z.readAtLeast fuel want acc = (.error (if (acc ++ z.abs.data).isEmpty then .eof else .unexpectedEof), z') ∧
+          z'.src.data = [] := by
+  intro fuel
+  induction fuel with
+  | zero => intro z want acc cur hw hf; omega
+  | succ fuel ih =>
+    intro z want acc cur hw hf
+    obtain ⟨k, eof, z', hread, hkw, hkD, hls', hdata, hmzr, hls2, heofT, heofF, hpos, hzero⟩ := sc_read_spec z want hw
+    have hw0 : (want == 0) = false := by simp; omega
+    have hlen : (z.abs.data.take k).length = k := by rw [List.length_take]; omega
+    by_cases hkw' : want ≤ k
+    · have hk : k = want := by omega
+      subst hk
+      refine ⟨z', hls', hls2, hmzr cur, ?_⟩
+      rw [if_pos hkD]
+      refine ⟨?_, hdata⟩
+      simp only [Sc.readAtLeast, hw0, hread, hlen]
+      simp
+    · cases eof with
+      | true =>
+        obtain ⟨_, hDk⟩ := heofT rfl
+        refine ⟨z', hls', hls2, hmzr cur, ?_⟩
+        rw [if_neg (by omega)]
+        have htake : z.abs.data.take k = z.abs.data := by rw [← hDk]; exact List.take_length
+        refine ⟨?_, by rw [hdata, ← hDk]; exact List.drop_length⟩
+        simp only [Sc.readAtLeast, hw0, hread, hlen]
+        simp [hkw', htake]
+      | false =>
+        have hprog := heofF rfl (by omega)
+        have habs : z'.abs.data = z.abs.data.drop k := by rw [abs_of_ne z' hls']; exact hdata
+        obtain ⟨z'', h1, h2, h3, h4⟩ := ih z' (want - k) (acc ++ z.abs.data.take k) 0 (by omega) (by omega)
+        refine ⟨z'', h1, fun hh => h2 (hls2 hh), Nat.le_trans h3 (hmzr cur), ?_⟩
+        have hstep : z.readAtLeast (fuel + 1) want acc = z'.readAtLeast fuel (want - k) (acc ++ z.abs.data.take k) := by
+          simp only [Sc.readAtLeast, hw0, hread, hlen]
+          simp [hkw']
+        rw [hstep]
+        rw [habs] at h4
+        have htk : z.abs.data.take k ++ (z.abs.data.drop k).take (want - k) = z.abs.data.take want := by
+          have : want = k + (want - k) := by omega
+          conv => rhs; rw [this, List.take_add]
+        have hdk : (z.abs.data.drop k).drop (want - k) = z.abs.data.drop want := by
+          rw [List.drop_drop]; congr 1; omega
+        by_cases hwl : want ≤ z.abs.data.length
+        · rw [if_pos hwl]
+          rw [if_pos (by rw [List.length_drop]; omega)] at h4
+          rw [List.append_assoc, htk, hdk] at h4
+          exact h4
+        · rw [if_neg hwl]
+          rw [if_neg (by rw [List.length_drop]; omega)] at h4
+          rw [List.append_assoc, List.take_append_drop] at h4
+          exact h4
+
+theorem legal_of {z : Sc} (h1 : maxZeroRun z.src.chunks 0 ≤ maxEmpty) (h2 : z.ls ≤ 2) : Legal z :=
+  ⟨h1, h2, by omega⟩
+
+theorem abs_fault (z : Sc) : z.abs.fault = none := by
+  unfold Sc.abs; split <;> rfl
+
+theorem rd_read1_nofault (r : Rd) (h : r.fault = none) :
+    r.read1 = match r.data with
+      | [] => (.error .eof, r)
+      | b :: rest => (.ok (b, ⟨rest, none, 0⟩), ⟨rest, none, 0⟩) := by
+  unfold Rd.read1
+  rw [h]
+  cases r.data <;> simp
+
+theorem rd_readN_nofault (r : Rd) (n : Nat) (h : r.fault = none) :
+    r.readN n = if n = 0 then (.ok [], r) else
+      if n ≤ r.data.length then (.ok (r.data.take n), ⟨r.data.drop n, none, 0⟩)
+      else (.error (if r.data.isEmpty then .eof else .unexpectedEof), ⟨[], none, 0⟩) := by
+  unfold Rd.readN
+  rw [h]
+  simp
+
+/-- full-strength one-byte read: results, exact abstract states (also after an error), unread -/
+theorem readn1_strong (z : Sc) (h : Legal z) :
+    ∃ z', z.readn1.2 = z' ∧ Legal z' ∧ z'.abs = z.abs.read1.2 ∧
+      match z.abs.data with
+      | [] => z.readn1.1 = .error .eof ∧ z.abs.read1.1 = .error .eof
+      | b :: rest => z.readn1.1 = .ok b ∧ z.abs.read1.1 = .ok (b, ⟨rest, none, 0⟩) ∧ z.abs.read1.2 = ⟨rest, none, 0⟩ ∧
+          z'.ls = 2 ∧ z'.l = b := by
+  obtain ⟨hm, hl2, _⟩ := h
+  obtain ⟨z', h1, h2, h3, h4, h5⟩ := readByte_spec (maxEmpty + 1) z 0 (by omega)
+  have hr1 := rd_read1_nofault z.abs (abs_fault z)
+  have habs' := abs_of_ne z' h1
+  cases hD : z.abs.data with
+  | nil =>
+    rw [hD] at h4 h5 hr1
+    simp only at h5 hr1
+    have hz : z.ls ≠ 1 := by
+      intro hc; simp [Sc.abs, hc] at hD
+    refine ⟨z', by simp [Sc.readn1, h5], legal_of (Nat.le_trans h3 hm) (h2 hl2), ?_, by simp [Sc.readn1, h5], by simp [hr1]⟩
+    rw [hr1, habs', h4]
+    show _ = z.abs
+    rw [abs_of_ne z hz]
+    rw [abs_of_ne z hz] at hD
+    simp at hD
+    simp [hD]
+  | cons b rest =>
+    rw [hD] at h4 h5 hr1
+    simp only at h5 hr1
+    obtain ⟨h5, h6, h7⟩ := h5
+    refine ⟨z', by simp [Sc.readn1, h5], legal_of (Nat.le_trans h3 hm) (h2 hl2), ?_, by simp [Sc.readn1, h5], by simp [hr1], by simp [hr1], h6, h7⟩
+    rw [hr1, habs', h4]
+    simp
+
+theorem readN_strong (z : Sc) (n : Nat) (h : Legal z) :
+    (z.readN n).1 = (z.abs.readN n).1 ∧ (z.readN n).2.abs = (z.abs.readN n).2 ∧ Legal (z.readN n).2 := by
+  have hrN := rd_readN_nofault z.abs n (abs_fault z)
+  by_cases hn : n = 0
+  · subst hn
+    simp [Sc.readN, hrN, h]
+  · obtain ⟨hm, hl2, _⟩ := h
+    obtain ⟨z', h1, h2, h3, h4⟩ := readAtLeast_spec (n + (z.src.chunks.length + 2)) z n [] 0 (by omega) (by omega)
+    have habs' := abs_of_ne z' h1
+    have hn' : (n == 0) = false := by simp [hn]
+    rw [if_neg hn] at hrN
+    have hzN : z.readN n = z.readAtLeast (n + (z.src.chunks.length + 2)) n [] := by
+      simp [Sc.readN, hn]
+    by_cases hnl : n ≤ z.abs.data.length
+    · rw [if_pos hnl] at h4 hrN
+      obtain ⟨h4, h5⟩ := h4
+      rw [hzN, h4, hrN]
+      refine ⟨by simp, ?_, legal_of (Nat.le_trans h3 hm) (h2 hl2)⟩
+      show z'.abs = _
+      rw [habs', h5]
+    · rw [if_neg hnl] at h4 hrN
+      obtain ⟨h4, h5⟩ := h4
+      rw [hzN, h4, hrN]
+      refine ⟨by simp, ?_, legal_of (Nat.le_trans h3 hm) (h2 hl2)⟩
+      show z'.abs = _
+      rw [habs', h5]
+
+/-! ### The refinement theorems -/
+
 theorem readn1_refines (z : Sc) (h : Legal z) : agree1 z.readn1 z.abs.read1 ∧ Legal z.readn1.2 := by
-  sorry
+  obtain ⟨z', hz', hL, habs, hm⟩ := readn1_strong z h
+  subst hz'
+  refine ⟨?_, hL⟩
+  cases hD : z.abs.data with
+  | nil =>
+    rw [hD] at hm
+    simp only [agree1, hm.1, hm.2, habs]
+    simp
+  | cons b rest =>
+    rw [hD] at hm
+    obtain ⟨h1, h2, h3, _, _⟩ := hm
+    simp only [agree1, h1, h2]
+    exact ⟨trivial, by rw [habs, h3], h3⟩
 
 def agreeN (a : Except Err Bytes × Sc) (b : Except Err Bytes × Rd) : Prop :=
   match a.1, b.1 with
@@ -46,11 +449,30 @@ def agreeN (a : Except Err Bytes × Sc) (b : Except Err Bytes × Rd) : Prop :=
   | _, _ => False
 
 theorem readN_refines (z : Sc) (n : Nat) (h : Legal z) : agreeN (z.readN n) (z.abs.readN n) ∧ Legal (z.readN n).2 := by
-  sorry
+  obtain ⟨h1, h2, h3⟩ := readN_strong z n h
+  refine ⟨?_, h3⟩
+  unfold agreeN
+  rw [h1, h2]
+  cases (z.abs.readN n).1 <;> simp
 
 theorem unread_refines (z z' : Sc) (b : Nat) (h : Legal z) (hr : z.readn1 = (.ok b, z')) :
     ∃ z'', z'.unreadByte = some z'' ∧ z''.abs = z'.abs.unread1 b ∧ Legal z'' := by
-  sorry
+  obtain ⟨z1, hz1, hL, habs, hm⟩ := readn1_strong z h
+  rw [hr] at hz1 hm
+  simp only at hz1 hm
+  subst hz1
+  cases hD : z.abs.data with
+  | nil => rw [hD] at hm; simp at hm
+  | cons b' rest =>
+    rw [hD] at hm
+    obtain ⟨h1, _, _, hls, hl⟩ := hm
+    have hb : b = b' := by simpa using h1
+    subst hb
+    obtain ⟨src, l, ls⟩ := z'
+    simp only at hls hl
+    subst hls hl
+    refine ⟨⟨src, l, 1⟩, by simp [Sc.unreadByte], by simp [Sc.abs, Rd.unread1], ?_⟩
+    exact ⟨hL.1, by simp, by simp⟩
 
 /-! ### Any client of the reader operations is schedule-independent -/
 
@@ -87,13 +509,36 @@ def runCursor {α : Type} : Prog α → Rd → Option α
 
 theorem client_independent {α : Type} (p : Prog α) (z : Sc) (h : Legal z) :
     runSched p z = runCursor p z.abs := by
-  sorry
+  induction p generalizing z with
+  | ret a => simp [runSched, runCursor]
+  | read1 u k ih =>
+    obtain ⟨z', hz', hL, habs, hm⟩ := readn1_strong z h
+    cases hD : z.abs.data with
+    | nil =>
+      rw [hD] at hm
+      simp only [runSched, runCursor, hm.1, hm.2]
+      rw [ih _ _ (hz' ▸ hL), hz', habs]
+    | cons b rest =>
+      rw [hD] at hm
+      obtain ⟨h1, h2, h3, hls, hl⟩ := hm
+      obtain ⟨z'', hu, hua, huL⟩ := unread_refines z z' b h (by rw [← hz', ← h1])
+      simp only [runSched, runCursor, h1, h2, hz', hu]
+      rw [habs, h3] at hua
+      split
+      · rw [ih _ _ huL, hua]
+      · rw [ih _ _ hL, habs, h3]
+  | readN n k ih =>
+    obtain ⟨h1, h2, h3⟩ := readN_strong z n h
+    simp only [runSched, runCursor]
+    rw [ih _ _ h3, h1, h2]
 
 /-- Two schedules of the same data give every client the same answer. -/
 theorem schedule_independent {α : Type} (p : Prog α) (data : Bytes) (c1 c2 : List Nat) (e1 e2 : Bool)
     (h1 : maxZeroRun c1 0 ≤ maxEmpty) (h2 : maxZeroRun c2 0 ≤ maxEmpty) :
     runSched p (Sc.ofSrc ⟨data, c1, e1⟩) = runSched p (Sc.ofSrc ⟨data, c2, e2⟩) := by
-  sorry
+  rw [client_independent p _ ⟨h1, by simp [Sc.ofSrc], by simp [Sc.ofSrc]⟩,
+    client_independent p _ ⟨h2, by simp [Sc.ofSrc], by simp [Sc.ofSrc]⟩]
+  rfl
 
 example : (match (Sc.ofSrc ⟨[1, 2, 3], [0, 1, 0, 0, 2], true⟩).readn1.1 with | .ok b => b == 1 | .error _ => false) = true := by
   decide
